@@ -354,3 +354,57 @@ bed_reader = Contract(
     assumptions=['text file iteration yields the lines (A4)'],
 )
 UNITS.append(bed_reader)
+
+
+# ------------------------------------------------------------------------------ blacklisted_binning on small regions (bounded, real code)
+# the loop contracts above are tied to the shape of the two loops; this run of the real generator over every small configuration
+# is independent of it: bins tile the region minus the blacklist exactly once, none is wider than bin_size, fetch windows contain
+# their bin, extend by at most the fragment size and stay inside the gap
+def binning_bounded(tier, seed):
+    import itertools
+    import json
+    import os
+    from pyvc.contract import import_real
+    fn = import_real(F, 'blacklisted_binning')
+    n = 0
+    intervals = [(a, b) for a in range(0, 11) for b in range(a + 1, 12)]
+    blacklists = [None, []] + [[iv] for iv in intervals[::3]] + [[i1, i2] for i1, i2 in itertools.combinations(intervals[::7], 2)]
+    for start, end in ((0, 8), (0, 11), (2, 9), (3, 3), (0, 1)):
+        for bin_size, frag in itertools.product((1, 2, 3, 4, 7), (None, 0, 2, 5)):
+            for bl in blacklists:
+                try:
+                    got = [tuple(x) for x in fn(start, end, bin_size, blacklist=[tuple(b) for b in bl] if bl is not None else None,
+                                                fragment_size=frag)]
+                except Exception as e:      # noqa: BLE001
+                    got = '%s: %s' % (type(e).__name__, e)
+                n += 1
+                bad = None
+                if isinstance(got, str):
+                    bad = got
+                else:
+                    free = [x for x in range(start, end) if not any(b[0] <= x < b[1] for b in (bl or []))]
+                    covered = [x for y in got for x in range(y[0], y[1])]
+                    if covered != free:
+                        bad = 'bins do not tile the region minus the blacklist exactly once'
+                    elif any(y[1] - y[0] > bin_size for y in got):
+                        bad = 'a bin is wider than bin_size'
+                    elif frag is not None and any(not (y[2] <= y[0] and y[1] <= y[3] and y[0] - y[2] <= frag and y[3] - y[1] <= frag
+                                                       and start <= y[2] and y[3] <= end
+                                                       and not any(b[0] < y[3] and y[2] < b[1] for b in (bl or []))) for y in got):
+                        bad = 'a fetch window leaves its gap / exceeds the fragment size'
+                if bad:
+                    out = os.environ.get('VERIF_OUT', '.')
+                    os.makedirs(os.path.join(out, 'replays', PROP), exist_ok=True)
+                    path = 'replays/%s/blacklisted_binning_small.json' % PROP
+                    json.dump({'property': PROP, 'obligation': '%s/blacklisted_binning[small regions]' % PROP,
+                               'replay': {'status': 'confirmed', 'what': bad, 'start': start, 'end': end, 'bin_size': bin_size,
+                                          'fragment_size': frag, 'blacklist': bl, 'observed': got if isinstance(got, str) else [list(y) for y in got]}},
+                              open(os.path.join(out, path), 'w'), indent=1)
+                    return {'result': 'violation', 'replay': path, 'confirmed': True, 'configurations': n}
+    return {'result': 'clean', 'configurations': n}
+
+
+from pyvc.units import Bounded      # noqa: E402
+UNITS.append(Bounded(PROP, 'blacklisted_binning[every small configuration, real generator]', binning_bounded,
+                     '5 regions within 0..11 x bin size 1,2,3,4,7 x fragment size none,0,2,5 x blacklists of 0-2 intervals',
+                     'exhaustive run of the real generator against the specification'))
